@@ -80,9 +80,13 @@ fn standardised(d: &Data) -> Mat {
 /// Draws (X, y) inside the quantifier: 1 ≤ p ≤ 8, p < n ≤ 80, cond ≤ 1e6 (f32: ≤ 30 / 10), column
 /// scales 1e-2..1e3 (either one per column or one common scale), non-zero column means.
 fn draw_data<T: SNum>(c: &mut Case, model: Model) -> Option<Data> {
-    let p = c.rng.us(1, 8);
+    let big = scverif::big() > 0;
+    // the `large` family: 9..40 features, up to 300 rows more than features
+    let p = if big { c.rng.us(9, 40) } else { c.rng.us(1, 8) };
     let r = c.rng.f();
-    let n = if r < 0.12 {
+    let n = if big {
+        c.rng.us(p + 1, p + 300)
+    } else if r < 0.12 {
         p + 1
     } else if r < 0.5 {
         c.rng.us(p + 1, (p + 12).min(80))
@@ -273,12 +277,13 @@ struct OlsFit {
 }
 
 fn ols_one<T: SNum>(c: &mut Case, d: &Data, A: &Mat, cn: &[f64], solver: &str) -> Option<OlsFit> {
+    let idx = c.index;
     let (n, p) = (d.n, d.p);
     let sg = format!("{}/{}", width::<T>(), solver);
     let xm: DenseMatrix<T> = to_dense(&d.x);
     let yv: Vec<T> = tv(&d.y);
     let params = LinearRegressionParameters::default().with_solver(if solver == "qr" { LinearRegressionSolverName::QR } else { LinearRegressionSolverName::SVD });
-    let model = match c.must(&format!("ols.fit({})", solver), || LinearRegression::fit(&xm, &yv, params)) {
+    let model = match c.must(&format!("ols.fit({})", solver), || LinearRegression::fit(&xm, &yv, scverif::reused(idx, params))) {
         Some(Ok(m)) => m,
         Some(Err(e)) => {
             c.check("ols.fit-ok", false, &sg, || format!("fit returned Err({}) for a full-column-rank design", e));
@@ -426,6 +431,7 @@ struct RidgeFit {
 }
 
 fn ridge_one<T: SNum>(c: &mut Case, d: &Data, k: &RidgeCtx, solver: &str) -> Option<RidgeFit> {
+    let idx = c.index;
     let (n, p) = (d.n, d.p);
     let sg = format!("{}/{}/{}", width::<T>(), solver, k.mode());
     let xm: DenseMatrix<T> = to_dense(&d.x);
@@ -434,7 +440,7 @@ fn ridge_one<T: SNum>(c: &mut Case, d: &Data, k: &RidgeCtx, solver: &str) -> Opt
         .with_alpha(t::<T>(k.alpha))
         .with_normalize(k.normalize)
         .with_solver(if solver == "cholesky" { RidgeRegressionSolverName::Cholesky } else { RidgeRegressionSolverName::SVD });
-    let model = match c.must(&format!("ridge.fit({})", solver), || RidgeRegression::fit(&xm, &yv, params)) {
+    let model = match c.must(&format!("ridge.fit({})", solver), || RidgeRegression::fit(&xm, &yv, scverif::reused(idx, params))) {
         Some(Ok(m)) => m,
         Some(Err(e)) => {
             c.check("ridge.fit-ok", false, &sg, || format!("fit returned Err({}) for n > p, non-constant columns (smallest std/ulp(mean) = {:e}), κ(ZᵀZ+αI) = {:e}; {}", e, k.min_std_ulps, k.kg, k.libstd));
@@ -622,6 +628,16 @@ fn api_paths_fam(c: &mut Case) {
     scverif::apipaths::case(c, "C07")
 }
 
+/// OLS and ridge on designs with 9..40 features (beyond the ordinary bound of 8)
+fn large(c: &mut Case) {
+    let g = c.index % 3;
+    scverif::with_big(1, || match g {
+        0 => ols(c),
+        1 => ridge_norm(c),
+        _ => ridge_raw(c),
+    })
+}
+
 fn main() {
     runner::main(Spec {
         property: "C07",
@@ -640,6 +656,7 @@ fn main() {
             Family::new("ridge_norm", 3500, 50000, ridge_norm),
             Family::new("ridge_raw", 2500, 40000, ridge_raw),
             Family::new("ridge_offset", 1000, 15000, ridge_offset),
+            Family::new("large", 200, 4000, large),
         ],
         min_nontrivial: 1500,
         case_timeout_s: 120,
